@@ -153,9 +153,10 @@ def run(res, tier):
     for w in pmap(_deep, permuted(deep, "c12deep"), chunk=1):
         res.merge_worker(w)
     res.set("deep_families", {f: deepvals.CHUNKS[f] for f in deepvals.FAMILIES})
-    from ..common import hostile_runs
+    from ..common import HOSTILE_FIPS, hostile_runs
 
-    hostile_runs(res, "mc.checks.c12", "_work", [[s_, list(o), "eq64", "quick"] for s_ in (None, "s", "é") for o in (("a",), ("b", "a"))] + [[None, "COLLIDE", "123", "quick"]])
+    hostile_runs(res, "mc.checks.c12", "_work", [[s_, list(o), "eq64", "quick"] for s_ in (None, "s", "é") for o in (("a",), ("b", "a"))] + [[None, "COLLIDE", "123", "quick"]],
+                 extra_configs=[HOSTILE_FIPS])
     # known answers of the position function (named in the anchors; skipped if it is renamed)
     fn = getattr(impl.binning, "deterministic_proba", None)
     n = 0
